@@ -230,6 +230,17 @@ impl BootstrapCacheStore {
             Error::FailedToParseCacheData
         })?;
 
+        // A cache written for another network version must not be merged into ours
+        // (the same check `contacts.rs` applies to network contact lists).
+        let our_network_version = crate::get_network_version();
+        if data.network_version != our_network_version {
+            warn!(
+                "Cache file is for network version {}, ours is {our_network_version}. Ignoring it.",
+                data.network_version
+            );
+            return Err(Error::FailedToParseCacheData);
+        }
+
         data.perform_cleanup(cfg);
 
         Ok(data)
